@@ -36,7 +36,7 @@ func (b *us902Band) GetDefaultMaxUplinkEIRP() float32 {
 }
 
 func (b *us902Band) GetPingSlotFrequency(devAddr lorawan.DevAddr, beaconTime time.Duration) (uint32, error) {
-	downlinkChannel := (int(binary.BigEndian.Uint32(devAddr[:])) + int(beaconTime/(128*time.Second))) % 8
+	downlinkChannel := (binary.BigEndian.Uint32(devAddr[:]) + uint32(beaconTime/(128*time.Second))) % 8
 	// Beaconing is performed on the same channel that normal downstream traffic as
 	// defined in the Class A specification.
 	return b.downlinkChannels[downlinkChannel].Frequency, nil
